@@ -216,7 +216,9 @@ def _case(rng: Rng, tier, entry=None, force=None):
                 # Gaussian kernel, small bandwidth: the gap locations are 4..10 bandwidths away from every sampling
                 # point (very poorly supported local problems), the other locations are well supported
                 case["far"] = True
-                case["kernel"], case["hu"] = "gaussian", rs(Fraction(1, 32))
+                # hole of 3/8 of the range: with h = 1/64 the gap locations are 8.5 … 12 bandwidths from every sampling point,
+                # with h = 1/128 they are 17 … 24 bandwidths away
+                case["kernel"], case["hu"] = "gaussian", rs(force.get("far_h", rng.choice([Fraction(1, 64), Fraction(1, 64), Fraction(1, 128)])))
             else:
                 case["kernel"], case["hu"] = rng.choice(["epanechnikov", "tricube", "bisquare"]), rs(Fraction(1, 8))
             case["degree"] = rng.choice([0, 1])
@@ -230,7 +232,7 @@ def _case(rng: Rng, tier, entry=None, force=None):
         case["x"] = [rs(t) for t in _scale_pts(dom, g)]
         case["y"] = [rs(t) for t in _curve(rng, g, ykind)]
         if gap:
-            g = _gap_grid(rng, rng.choice([33, 41]) if case.get("far") else rng.choice([17, 21, 25]))
+            g = _gap_grid(rng, rng.choice([57, 65]) if case.get("far") else rng.choice([17, 21, 25]))
             case["x"] = [rs(t) for t in _scale_pts(dom, g)]
             case["y"] = [rs(t) for t in _curve(rng, g, ykind)]
         gs = sorted(set(g))
@@ -306,7 +308,7 @@ def _case(rng: Rng, tier, entry=None, force=None):
         m = rng.choice([7, 8, 10] if cov else [9, 13, 17, 25])
         if cov and force.get("bigq"):
             m = 6
-        g = _gap_grid(rng, (rng.choice([33, 41]) if case.get("far") else rng.choice([17, 21, 25]))) if gap else _grid01(rng, m)
+        g = _gap_grid(rng, (rng.choice([57, 65]) if case.get("far") else rng.choice([17, 21, 25]))) if gap else _grid01(rng, m)
         nobs = rng.randint(3, 5) if (cov or entry.endswith("mean")) else rng.randint(1, 3)
         case["x"] = [rs(t) for t in _scale_pts(dom, g)]
         case["X"] = [[rs(t) for t in _curve(rng, g, ykind if k == 0 else rng.choice(["smooth", "rand"]))] for k in range(nobs)]
@@ -339,7 +341,7 @@ def _case(rng: Rng, tier, entry=None, force=None):
             # an exact pooled sample size on either side of the size switch (1500, 1999, 2000, 2001, 2500), 25 points per curve
             m, nobs = 50, pooled_n // 25
             case["pooled_n"] = pooled_n
-        g = _gap_grid(rng, m if pooled else (rng.choice([33, 41]) if case.get("far") else rng.choice([17, 21, 25]))) if gap else _grid01(rng, m)
+        g = _gap_grid(rng, m if pooled else (rng.choice([57, 65]) if case.get("far") else rng.choice([17, 21, 25]))) if gap else _grid01(rng, m)
         m = len(g)
         obs = []
         for k in range(nobs):
@@ -485,7 +487,10 @@ def gen_cases(rng: Rng, tier):
         yield _case(rng, tier, entry, dict(method=method, nonconst=True, same_axes=True))
         k += 1
     for entry in ("LocalPolynomial.predict", "DenseFunctionalData.smooth", "DenseFunctionalData.mean", "IrregularFunctionalData.smooth", "IrregularFunctionalData.mean"):
-        yield _case(rng, tier, entry, dict(method="LP", dom=rng.choice(["unit", "doy", "end0"]), nonconst=True, gap=True, far=True))
+        yield _case(rng, tier, entry, dict(method="LP", dom=rng.choice(["unit", "doy", "end0"]), nonconst=True, gap=True, far=True, far_h=Fraction(1, 64)))
+        k += 1
+    for entry in ("LocalPolynomial.predict", "DenseFunctionalData.smooth"):
+        yield _case(rng, tier, entry, dict(method="LP", dom="unit", nonconst=True, gap=True, far=True, far_h=Fraction(1, 128)))
         k += 1
     for entry in ("LocalPolynomial.predict", "DenseFunctionalData.smooth", "DenseFunctionalData.mean", "IrregularFunctionalData.smooth", "IrregularFunctionalData.mean"):
         yield _case(rng, tier, entry, dict(method="LP", dom=rng.choice(["unit", "doy", "neg"]), nonconst=True, gap=True))
